@@ -573,7 +573,11 @@ theorem parseStmt_ne_fuel (ts : List Token) (f : Nat) (h : ts.length + 2 ≤ f) 
 theorem parseTokens_ne_fuel (ts : List Token) : parseTokens ts ≠ .fuel := by
   unfold parseTokens
   have := parseStmt_ne_fuel ts (ts.length + 2) (Nat.le_refl _)
-  split <;> first | contradiction | (intro h; cases h)
+  split
+  · split <;> (intro h; cases h)
+  · intro h; cases h
+  · intro h; cases h
+  · contradiction
 
 /-- `parseSQL` (scanner followed by parser) never runs out of fuel. -/
 theorem parseSQL_ne_fuel (input : Input) : parseSQL input ≠ .fuel := by
